@@ -357,9 +357,9 @@ def c07(tier):
         fit = N if msgs_fit(msgs, N) else None
         cases.append(procset_case(whole, N, variants_for(s.rng, n, False), msgs=msgs if fit else None))
     # 2c. seeded long streams, also arbitrary bytes
-    nlong = 40 if tier == "quick" else 400
+    nlong = 30 if tier == "quick" else 400
     for i in range(nlong):
-        msgs = [m.encode("latin1") for m in random_history(s.rng, VOCAB_FAULT + VOCAB_PATH + C07_EXTRA, s.rng.randint(10, 80))]
+        msgs = [m.encode("latin1") for m in random_history(s.rng, VOCAB_FAULT + VOCAB_PATH + C07_EXTRA, s.rng.randint(8, 40 if tier == "quick" else 80))]
         whole = b"".join(msgs)
         if i % 4 == 3:   # corrupt: arbitrary bytes
             ba = bytearray(whole)
@@ -1368,10 +1368,10 @@ def c09(tier):
     sfiles = []
     for r in srecs:
         lines = []
-        for k in range(0, len(r["ops"]), 2000):
+        for k in range(0, len(r["ops"]), 250):
             # (the description text of the custom errors is the same in every entry: dropped from the soak lines to keep them small)
-            lines.append({"kind": "queue", "K": r["K"], "cont": k > 0, "ops": r["ops"][k:k + 2000],
-                          "obs": [{kk: v for kk, v in o.items() if kk != "txt"} for o in r["obs"][k:k + 2000]]})
+            lines.append({"kind": "queue", "K": r["K"], "cont": k > 0, "ops": r["ops"][k:k + 250],
+                          "obs": [{kk: v for kk, v in o.items() if kk != "txt"} for o in r["obs"][k:k + 250]]})
         pth = os.path.join(s.wd, "c09soak%d.ndjson" % r["K"])
         C.write_ndjson(pth, lines)
         sfiles.append((pth, lines))
@@ -1383,9 +1383,9 @@ def c09(tier):
             bad = lines[res["reject_index"] - 1]
             pr = C.write_replay("C09", "soak-K%d-line%d" % (bad["K"], res["reject_index"]),
                                 {"why": "long-lived queue: an entry was lost, duplicated or returned out of order", "K": bad["K"],
-                                 "line": res["reject_index"], "operations_before": 2000 * (res["reject_index"] - 1), "kind": "soak",
+                                 "line": res["reject_index"], "operations_before": 250 * (res["reject_index"] - 1), "kind": "soak",
                                  "ops_tail": bad["ops"][:40], "obs_tail": bad["obs"][:40]})
-            s.violations.append(("error queue of capacity %d misbehaved after about %d operations of one instance" % (bad["K"], 2000 * (res["reject_index"] - 1)), pr))
+            s.violations.append(("error queue of capacity %d misbehaved after about %d operations of one instance" % (bad["K"], 250 * (res["reject_index"] - 1)), pr))
     rejected = s.validate(recs, "c09", chunk=500)
     s.report_rejected(rejected, "errors were not returned oldest first, the count was wrong, the queue exceeded its capacity, or overflow did not "
                                 "replace exactly the newest entry by -350")
